@@ -144,6 +144,39 @@ example : (merge (⟨-1, 5, 2, false, none, .float⟩ : Attrs Int)
     (merge (⟨-1, 5, 2, false, some 1, .float⟩ : Attrs Int)
     [fresh true ⟨-3, 4, 10, true, some 7, .float⟩]).start = some 1 := by decide
 
+/-- **Whatever the iteration order**, the start of the merged canonical is one of `startChoices`:
+    its own explicit start, else an explicit (sign-adjusted) start of a merged alias, else the default
+    marker.  (The Python set of aliases has no defined order; the property does not say which alias'
+    start is adopted.) -/
+theorem start_admissible_any_order (c : Attrs α) {es es' : List (Entry α)} (p : es'.Perm es) :
+    (merge c es').start ∈ startChoices c es := by
+  rw [merge_start_eq]
+  unfold startChoices
+  cases hc : c.start with
+  | some v => simp
+  | none =>
+    simp only
+    cases hf : es'.findSome? adopt with
+    | none =>
+      have hnone : es.filterMap adopt = [] := by
+        rw [List.filterMap_eq_nil_iff]
+        intro e he
+        exact (List.findSome?_eq_none_iff.1 hf) e (p.mem_iff.2 he)
+      simp [hnone]
+    | some w =>
+      obtain ⟨e, he, hw⟩ := List.exists_of_findSome?_eq_some hf
+      have hmem : w ∈ es.filterMap adopt := List.mem_filterMap.2 ⟨e, p.mem_iff.1 he, hw⟩
+      have hne : (es.filterMap adopt).isEmpty = false := by
+        cases h : es.filterMap adopt with
+        | nil => rw [h] at hmem; simp at hmem
+        | cons _ _ => rfl
+      simp only [hne, Bool.false_eq_true, if_false]
+      exact List.mem_map.2 ⟨w, hmem, rfl⟩
+
+example : startChoices (⟨-1, 5, 2, false, none, .float⟩ : Attrs Int)
+    [fresh false ⟨0, 2, 3, false, some 4, .float⟩, fresh true ⟨-3, 4, 10, true, some 7, .float⟩] = [some 4, some (-7)] := by
+  decide
+
 /-- **Chains / nested classes, any sign.**  Absorbing, with sign `s`, an alias that already carries
     the merged attributes of its own aliases `ms` gives the same bounds as absorbing all of them
     directly with multiplied signs. -/
